@@ -6,6 +6,7 @@ import (
 	"encoding/json"
 	"fmt"
 	"os"
+	"os/exec"
 	"path/filepath"
 	"sort"
 	"strings"
@@ -29,10 +30,46 @@ type Report struct {
 	stretch map[string]bool
 	engineErr string
 	bounded []map[string]interface{}
+	boundedFailed bool
 	violations []string
 }
 
 func (r *Report) engineFailure(msg string) { r.engineErr = msg }
+
+// runBounded executes a bounded stand-in (an in-package Go test injected with -overlay). Its cases
+// are reported under coverage.bounded_checks and are never counted as proof obligations.
+func (r *Report) runBounded(bc BoundedCheck, thorough bool) {
+	env, bound := bc.Env, bc.Bound
+	if thorough && bc.EnvThorough != "" {
+		env, bound = bc.EnvThorough, bc.BoundThorough
+	}
+	test := filepath.Join(r.verif, bc.Test)
+	cmd := exec.Command("sh", filepath.Join(r.verif, "replay", "run_overlay.sh"), bc.Pkg, test, "-run", bc.Run, "-v")
+	cmd.Env = append(os.Environ(), "VERIF_REPO="+r.repo, "GOVC_TIMEOUT=1500s")
+	if env != "" {
+		cmd.Env = append(cmd.Env, env)
+	}
+	t0 := time.Now()
+	out, err := cmd.CombinedOutput()
+	res := map[string]interface{}{"name": bc.Name, "bound": bound, "label": "bounded (not a proof)", "test": bc.Test, "time_s": round3(time.Since(t0).Seconds())}
+	for _, ln := range strings.Split(string(out), "\n") {
+		if strings.HasPrefix(ln, "BOUNDED-") {
+			res["summary"] = strings.TrimSpace(ln)
+		}
+	}
+	if err != nil || !strings.Contains(string(out), "\nok") && !strings.HasPrefix(string(out), "ok") {
+		res["result"] = "FAILED"
+		f := filepath.Join(r.outDir, "replay", sanitizeFile("bounded-"+bc.Name)+".txt")
+		os.MkdirAll(filepath.Dir(f), 0o755)
+		os.WriteFile(f, []byte("bounded check "+bc.Name+" failed (replay with: ./check --replay "+test+")\n\n"+string(out)), 0o644)
+		fmt.Printf("VIOLATION property=%s replay=%s obligation=bounded:%s\n", r.ID, test, bc.Name)
+		r.violations = append(r.violations, "bounded:"+bc.Name)
+		r.boundedFailed = true
+	} else {
+		res["result"] = "passed"
+	}
+	r.bounded = append(r.bounded, res)
+}
 
 type KnownFinding struct {
 	Property   string `json:"property"`
@@ -195,6 +232,9 @@ func (r *Report) finish() int {
 	os.MkdirAll(evDir, 0o755)
 	os.WriteFile(filepath.Join(evDir, r.ID+".json"), eb, 0o644)
 	fmt.Printf("%s %s: %d/%d obligations discharged, %d functions, %d vacuity checks, %.1fs (load %.1fs)\n", r.ID, r.Tier, discharged, total, len(r.Funcs), vacuity, wall, r.loadS)
+	if r.boundedFailed {
+		exit = 1
+	}
 	if total == 0 && exit == 0 {
 		fmt.Printf("VIOLATION property=%s replay=%s no obligations generated no-failing-input-found\n", r.ID, replayDir)
 		exit = 1
